@@ -121,7 +121,12 @@ class Trace:
         open_calls = [0, 0]    # stream requests made by the application of each endpoint
         accepted = [0, 0]      # streams handed to the accepting application of each endpoint
         connect_at = {}        # (e, fid) -> label at which e last sent Connect fid
-        stale = [False, False] # endpoint e received a Reset/Acknowledge sent before its current Connect of that id
+        stale = [False, False] # endpoint e received a Reset/Acknowledge that belongs to an earlier incarnation of the id
+        derived = set()        # (emitter, fid, label): frames emitted in answer to a frame of an earlier incarnation
+        open_connect = {}      # (e, open index) -> label of the latest Connect emitted for that request
+        open_seq = [0, 0]      # number of Open calls so far per endpoint (= index of the next request)
+        acc_q = [[], []]       # per acceptor: (fid, label of the Connect) of accepted Connects not yet handed to the application
+        stream_connect = {}    # (e, sid) -> label of the Connect that created this stream's incarnation
         adversarial = False    # the harness has played a misbehaving peer (Inject): the conformance predicates abstain from then on
         throttled = [False, False]  # the endpoint's sink has been throttled (Permits): frames may sit in its queue
         connects = {}          # fid -> number of Connect frames seen for it (either side)
@@ -146,47 +151,53 @@ class Trace:
                 else:
                     m = ('ctl', l[2])
                 link[1 - l[1]].append((m, k))
+            def delivered(m, sent_at, rx):
+                """bookkeeping for one message taken by endpoint rx's task at label k"""
+                if m[0] != 'frame':
+                    return
+                fid = m[2]
+                if m[1] == 0 and any(x[0] == 'frame' and x[1] == 1 and x[2] == fid for x in emitted[rx]):
+                    acc_q[rx].append((fid, sent_at))
+                if m[1] in (2, 3):
+                    got_end.add((rx, fid))
+                # the frame belongs to an earlier incarnation of its id if the receiver has sent a new Connect
+                # for that id since, or if it answers a frame its sender emitted before re-using the id
+                old = sent_at < connect_at.get((rx, fid), -1) or (1 - rx, fid, sent_at) in derived
+                # ... and whatever rx's task emits for this id while processing a frame that the SENDER emitted
+                # before re-using the id is an answer to the earlier incarnation as well
+                if m[1] != 0 and sent_at < connect_at.get((1 - rx, fid), -1):
+                    derived.add((rx, fid, k))
+                if old and m[1] in (1, 2):
+                    stale[rx] = True
+                if old and m[1] in (1, 2, 3, 4):
+                    self.fail('C06', "label %d: a %s frame belonging to an earlier incarnation of flow %d (sent at label %d) is delivered to endpoint %d "
+                              "after the id has been re-used: something of the old stream leaks into the stream that reuses its id"
+                              % (k, OPC[m[1]], fid, sent_at, rx), "id-reuse-stale-frame")
+
             if op == 33:
                 d = 1 - l[1]
                 if res == [0, 0] and link[d]:
                     m, sent_at = link[d].pop(0)
-                    if m[0] == 'frame' and m[1] in (2, 3):
-                        got_end.add((l[1], m[2]))
-                    if m[0] == 'frame' and m[1] in (1, 2) and sent_at < connect_at.get((l[1], m[2]), -1):
-                        stale[l[1]] = True
-                    if m[0] == 'frame' and m[1] in (1, 2, 3, 4) and sent_at < connect_at.get((l[1], m[2]), -1):
-                        self.fail('C06', "label %d: a %s frame of an earlier incarnation of flow %d (sent at label %d, before endpoint %d's new Connect at label %d) "
-                                  "is delivered into the new incarnation: something of the old stream leaks into the stream that reuses its id"
-                                  % (k, OPC[m[1]], m[2], sent_at, l[1], connect_at[(l[1], m[2])]), "id-reuse-stale-frame")
+                    delivered(m, sent_at, l[1])
             if op == 34 and res[:1] == [0] and len(res) == 2:
                 d = l[1]
                 for _ in range(min(res[1], len(link[d]))):
                     m, sent_at = link[d].pop(0)
-                    if m[0] == 'frame' and m[1] in (2, 3):
-                        got_end.add((1 - d, m[2]))
-                    if m[0] == 'frame' and m[1] in (1, 2) and sent_at < connect_at.get((1 - d, m[2]), -1):
-                        stale[1 - d] = True
-                    if m[0] == 'frame' and m[1] in (1, 2, 3, 4) and sent_at < connect_at.get((1 - d, m[2]), -1):
-                        self.fail('C06', "label %d: a %s frame of an earlier incarnation of flow %d (sent at label %d, before endpoint %d's new Connect at label %d) "
-                                  "is delivered into the new incarnation: something of the old stream leaks into the stream that reuses its id"
-                                  % (k, OPC[m[1]], m[2], sent_at, 1 - d, connect_at[(1 - d, m[2])]), "id-reuse-stale-frame")
+                    delivered(m, sent_at, 1 - d)
             if op == 18:
                 d = l[1]
                 if res == [0] and link[d]:
                     m, sent_at = link[d].pop(0)
-                    if m[0] == 'frame' and m[1] in (2, 3):
-                        got_end.add((1 - d, m[2]))
-                    if m[0] == 'frame' and m[1] in (1, 2) and sent_at < connect_at.get((1 - d, m[2]), -1):
-                        stale[1 - d] = True
-                    if m[0] == 'frame' and m[1] in (1, 2, 3, 4) and sent_at < connect_at.get((1 - d, m[2]), -1):
-                        self.fail('C06', "label %d: a %s frame of an earlier incarnation of flow %d (sent at label %d, before endpoint %d's new Connect at label %d) "
-                                  "is delivered into the new incarnation: something of the old stream leaks into the stream that reuses its id"
-                                  % (k, OPC[m[1]], m[2], sent_at, 1 - d, connect_at[(1 - d, m[2])]), "id-reuse-stale-frame")
+                    delivered(m, sent_at, 1 - d)
             for e in (0, 1):
                 for em in emitted[e]:
                     if em[0] == 'frame':
                         if em[1] == 0:
                             connect_at[(e, em[2])] = k
+                            if op == 10 and len(l) > 1 and l[1] == e:
+                                open_connect[(e, open_seq[e])] = k
+                            elif op == 11 and len(l) > 2 and l[1] == e:
+                                open_connect[(e, l[2])] = k
                             connects[em[2]] = connects.get(em[2], 0) + 1
                             if connects[em[2]] > 1:
                                 reused.add(em[2])
@@ -226,8 +237,17 @@ class Trace:
                     else:
                         self.fail('C07', "label %d: endpoint %d's application has been handed %d streams although the peer made only %d requests"
                                   % (k, e, accepted[e], open_calls[1 - e]))
+            if op == 10:
+                open_seq[e] += 1
             if op in (11, 10, 12) and res[:1] == [0] and len(res) >= 4:
                 sid, port = res[1], res[2]
+                if op == 12:
+                    if acc_q[e]:
+                        stream_connect[(e, sid)] = ('acc', acc_q[e].pop(0)[1])
+                else:
+                    kk = l[2] if op == 11 else open_seq[e] - 1
+                    if (e, kk) in open_connect:
+                        stream_connect[(e, sid)] = ('req', open_connect[(e, kk)])
                 host, j = lp(res, 3)
                 fid = res[j] if j < len(res) else None
                 if fid is not None:
@@ -278,6 +298,20 @@ class Trace:
                             if fb is not None and len(ro) < fb and not ended[e]:
                                 self.fail('C05', "label %d: end-of-stream on endpoint %d stream %d before all %d bytes the peer wrote were returned (%d returned)"
                                           % (k, e, sid, fb, len(ro)))
+            elif op in (17, 33) and res[:1] == [0] and len(l) > 2:
+                sid = l[2]
+                if (e, sid) in fid_of and (e, sid) in stream_connect:
+                    fid = fid_of[(e, sid)][0]
+                    kind, lab = stream_connect[(e, sid)]
+                    newer = connect_at.get((e, fid) if kind == 'req' else (1 - e, fid), -1)
+                    if newer > lab:
+                        # the handle of an earlier incarnation is dropped after its id has been re-used: the task closes
+                        # whatever holds that id NOW
+                        stale[0] = stale[1] = True
+                        derived.add((e, fid, k))
+                        self.fail('C06', "label %d: endpoint %d drops the handle of an earlier incarnation of flow %d after the id has been re-used "
+                                  "(its Connect went out at label %d, the newer one at label %d): the drop closes the stream that reuses the id"
+                                  % (k, e, fid, lab, newer), "id-reuse-stale-frame")
             elif op == 16:
                 sid = l[2]
                 if res[:1] == [0]:
